@@ -196,6 +196,11 @@ class Repo:
         self.methods_by_name: dict[str, list[FuncInfo]] = {}
         self._load()
         self._link()
+        self.inline_stats: dict = {}
+        if not os.environ.get("XSA_NO_INLINE"):
+            from .inline import inline_private_helpers
+
+            self.inline_stats = inline_private_helpers(self)
 
     # ------------------------------------------------------------------ loading
     def _load(self) -> None:
@@ -456,6 +461,30 @@ def walk_no_nested(node: ast.AST, include_lambda: bool = True) -> Iterator[ast.A
         if isinstance(n, ast.Lambda) and not include_lambda:
             continue
         stack.extend(ast.iter_child_nodes(n))
+
+
+def ordered_stmts(fn: ast.AST) -> Iterator[ast.stmt]:
+    """Statements of a function in syntactic (execution-text) order, nested blocks included, nested defs not entered.
+
+    Line numbers cannot be used for ordering: statements of an inlined helper keep the helper's own positions."""
+    def block(body: list[ast.stmt]) -> Iterator[ast.stmt]:
+        for st in body:
+            yield st
+            if isinstance(st, (ast.FunctionDef, ast.AsyncFunctionDef, ast.ClassDef)):
+                continue
+            for field in ("body", "orelse"):
+                sub = getattr(st, field, None)
+                if isinstance(sub, list) and sub and isinstance(sub[0], ast.stmt):
+                    yield from block(sub)
+            for h in getattr(st, "handlers", []) or []:
+                yield from block(h.body)
+            sub = getattr(st, "finalbody", None)
+            if sub:
+                yield from block(sub)
+            for case in getattr(st, "cases", []) or []:
+                yield from block(case.body)
+
+    yield from block(getattr(fn, "body", []))
 
 
 def dotted_name(node: ast.AST) -> str | None:
